@@ -326,3 +326,38 @@ package dnsserver
 //@   requires SD(s) && conn != nil && sess != nil
 //@   requires own-bytes-only: off(buf) + len(buf) <= stamped[arr(buf)]
 //@   modifies heap, served, servedReq, servedRW, servedErr, writes, wroteReq, wroteResp, wroteId, wroteRcode, wroteNQ, wroteQ, truncSize, disposed
+
+// TCP / DoT: the pooled buffer is resliced to the announced length and filled
+// completely before it is decoded.
+
+//@ func (*ServerDNS).getTCPBuffer
+//@   property C06
+//@   requires SD(s) && s.tcpPool != nil && 0 <= length && length <= 65535
+//@   modifies stamped, allcells([]byte), allelems(byte)
+//@   ensures bufPtr != nil && len(deref(bufPtr)) == length && off(deref(bufPtr)) == 0
+
+//@ func (*ServerDNS).readTCPMsg
+//@   property C06
+//@   requires SD(s) && s.tcpPool != nil && conn != nil
+//@   modifies stamped, allcells([]byte), allelems(byte), allcells(uint16)
+//@   ensures own-bytes-only: err == nil ==> bufPtr != nil && off(deref(bufPtr)) == 0 &&
+//@             len(deref(bufPtr)) <= stamped[arr(deref(bufPtr))]
+
+//@ func (*ServerDNS).acceptTCPMsg
+//@   property C06 C18
+//@   requires SD(s) && s.tcpPool != nil && conn != nil && wg != nil && writeMu != nil && msgSema != nil
+//@   modifies stamped, allcells([]byte), allelems(byte), allcells(uint16), holders[msgSema]
+//@   ensures slot-taken-iff-submitted: holders[msgSema] <= old(holders[msgSema]) + 1
+
+//@ func (*ServerDNS).acceptTCPMsg$1
+//@   property C06 C18
+//@   requires SD(s) && s.tcpPool != nil && conn != nil && wg != nil && writeMu != nil && msgSema != nil && bufPtr != nil
+//@   requires own-bytes-only: off(deref(bufPtr)) + len(deref(bufPtr)) <= stamped[arr(deref(bufPtr))]
+//@   modifies heap, served, servedReq, servedRW, servedErr, writes, wroteReq, wroteResp, wroteId, wroteRcode, wroteNQ, wroteQ, truncSize, disposed, holders[msgSema]
+//@   ensures slot-released-exactly-once: holders[msgSema] == old(holders[msgSema]) - 1
+
+//@ func (*ServerDNS).serveTCPMessage
+//@   property C01 C06
+//@   requires SD(s) && conn != nil && wg != nil && writeMu != nil
+//@   requires own-bytes-only: off(buf) + len(buf) <= stamped[arr(buf)]
+//@   modifies heap, served, servedReq, servedRW, servedErr, writes, wroteReq, wroteResp, wroteId, wroteRcode, wroteNQ, wroteQ, truncSize, disposed
